@@ -34,3 +34,7 @@ pub const BAD_TRUNCATED: &str = include_str!("../../../../fixtures/certs/bad_tru
 pub fn by_fingerprint(fp: &str) -> Option<&'static Fixture> {
     BANK.iter().find(|f| f.fingerprint == fp)
 }
+
+/// certificate for the wire lab's HTTPS listener: SAN `*.lab`, `lab`, `localhost`
+pub const LAB_CERT: &str = include_str!("../../../../fixtures/certs/lab.pem");
+pub const LAB_KEY: &str = include_str!("../../../../fixtures/certs/lab.key");
